@@ -47,8 +47,24 @@ def e_sub(a, b):
     return a - b
 
 
+def _exact(a, b):
+    """Both concrete and at least one an exact rational (a unit scale): stay exact."""
+    from fractions import Fraction
+    if isinstance(a, Fraction) or isinstance(b, Fraction):
+        try:
+            fa = a if isinstance(a, Fraction) else Fraction(float(a)) if isinstance(a, (float, _np.floating)) else Fraction(int(a))
+            fb = b if isinstance(b, Fraction) else Fraction(float(b)) if isinstance(b, (float, _np.floating)) else Fraction(int(b))
+            return fa, fb
+        except (ValueError, OverflowError, TypeError):
+            return None
+    return None
+
+
 def e_mul(a, b):
     if not is_sym(a) and not is_sym(b):
+        ex = _exact(a, b)
+        if ex is not None:
+            return ex[0] * ex[1]
         with _np.errstate(all='ignore'):
             return _f64(a) * _f64(b) if isinstance(a, float) or isinstance(b, float) else a * b
     if isinstance(a, (bool, _np.bool_)):
@@ -60,6 +76,9 @@ def e_mul(a, b):
 
 def e_div(a, b):
     if not is_sym(a) and not is_sym(b):
+        ex = _exact(a, b)
+        if ex is not None and ex[1] != 0:
+            return ex[0] / ex[1]
         with _np.errstate(all='ignore'):
             return _f64(a) / _f64(b)
     return real(a) / real(b)
@@ -850,8 +869,17 @@ def zeros_like(a, dtype=None, **kw):
     return _np.zeros_like(a, dtype=dtype, **kw)
 
 
+def _tokens(obj):
+    return isinstance(obj, (list, tuple)) and len(obj) > 0 and builtins.all(hasattr(x, '_symx_token_float') for x in obj)
+
+
 def array(obj, dtype=None, copy=True, **kw):
     dtype = _dt(dtype)
+    if _tokens(obj) and dtype in (int, float, _np.float64):
+        out = _np.empty(len(obj), dtype=object)
+        for i, t in enumerate(obj):
+            out[i] = t._symx_token_int() if dtype is int else t._symx_token_float()
+        return finish(out)
     if isinstance(obj, _np.ndarray) and obj.dtype == object and (dtype is object or _is_float_dt(dtype)):
         r = _plain(obj).copy() if copy else _plain(obj)
         u = _unit_of(obj)
@@ -896,6 +924,8 @@ def astype(a, dtype):
     if dtype in (int, _np.int32, _np.int64) or dtype is bool:
         if not _has_sym(a):
             return _plain(a).astype(dtype)
+        if dtype is not bool and builtins.all(isinstance(x, (SymInt, int, _np.integer)) for x in _plain(a).flat):
+            return a
         raise Inconclusive("astype(%r) of a symbolic array" % (dtype,))
     if isinstance(dtype, _np.dtype) and dtype == object:
         return a
